@@ -435,6 +435,27 @@ func checkCase(c Case) error {
 			if got {
 				hx.Class("existslist_true")
 			}
+			// the list-level query: a list contains the queried list iff it holds every one of its entries
+			// (CmpHeader is not judged: it is not a membership query, and it tells a nil header from an empty one)
+			if lists, lerr := adapt.DBFromLib(*db); lerr == nil && len(lists) == len(*db) {
+				for i, l := range *db {
+					wantIn := true
+					for _, qs := range q.Signatures {
+						found := false
+						for _, e := range lists[i].Entries {
+							if e.Owner == owner && bytes.Equal(e.Data, qs.Data) {
+								found = true
+							}
+						}
+						if !found {
+							wantIn = false
+						}
+					}
+					if gotIn := l.ExistsInList(q); gotIn != wantIn {
+						return fmt.Errorf("%s: list %d: ExistsInList(list of %d entries) = %v but the list's entries say %v", step, i, n, gotIn, wantIn)
+					}
+				}
+			}
 		case "appendlist", "appenddb":
 			// lists built with the list-level API, holding at least one entry
 			var built []*signature.SignatureList
